@@ -336,7 +336,13 @@ func clockDrift(cfg svcConfig) time.Duration {
 	if cfg.ClockDrift < 0 {
 		logbase.Fatal(slog.Default(), "invalid clock drift value specified in config")
 	}
-	return timemath.Duration(cfg.ClockDrift)
+	drift := timemath.Duration(cfg.ClockDrift)
+	if cfg.ClockDrift > 0 && drift == clocks.UnknownDrift {
+		// A drift below the resolution of 1 ns/s would be taken for "unknown",
+		// which leaves the corrections unbounded.
+		logbase.Fatal(slog.Default(), "clock drift value specified in config is too small")
+	}
+	return drift
 }
 
 func syncConfig(cfg svcConfig) sync.Config {
